@@ -121,6 +121,15 @@ pub fn k8(dir: &str, thorough: bool, seed: u64) {
                 rand_tree(&mut rng, &spec, sz, &mut Vec::new(), true).to_string()
             })
             .collect();
+        // a formula given as a multi-line string (a line break is white space for the parser): it has to be archived on one line
+        let formulae: Vec<String> = formulae
+            .into_iter()
+            .map(|f| match rng.below(4) {
+                0 => f.replacen(' ', "\n", 1),
+                1 => f.replacen(' ', "\r\n  ", 1),
+                _ => f,
+            })
+            .collect();
         let path = scratch(dir, &format!("a{i}.zip"));
         let wrote = build_result_archive(ctx.clone(), &path, &model_str, formulae.clone());
         out.oracle(wrote.is_ok(), "C16", "build_result_archive failed", &format!("{labels:?}"));
@@ -187,7 +196,11 @@ pub fn k8(dir: &str, thorough: bool, seed: u64) {
         }
         out.oracle(got.iter().all(|g| labels.contains(g)), "C16", "reloading invents a set that was not written", &format!("{got:?} vs {labels:?}"));
         let lines: Vec<String> = ftxt.lines().map(|x| x.to_string()).collect();
-        out.oracle(lines == formulae, "C16", "line i of formulae.txt is not formula i", &format!("{formulae:?}"));
+        // line i is formula i, up to the white space of a formula given as a multi-line string (it must still be ONE line,
+        // and the same token sequence)
+        let same_formula = |line: &String, f: &String| -> bool { line.split_whitespace().collect::<Vec<_>>() == f.split_whitespace().collect::<Vec<_>>() };
+        out.oracle(lines.len() == formulae.len() && lines.iter().zip(formulae.iter()).all(|(l, f)| same_formula(l, f)), "C16",
+            "line i of formulae.txt is not formula i", &format!("{formulae:?} archived as {lines:?}"));
         // the symbolic context of the re-parsed model equals the original one
         out.oracle(
             graph2.symbolic_context().bdd_variable_set().to_string() == xg.graph.symbolic_context().bdd_variable_set().to_string(),
